@@ -31,6 +31,10 @@ pub fn payloads() -> Vec<(&'static str, Vec<u8>)> {
         ("trailing-blank-lines", b"x\n\n\n".to_vec()),
         ("spaces", b"  x  \n".to_vec()),
         ("utf8", "h\u{e9}llo \u{65e5}\u{672c}\n".as_bytes().to_vec()),
+        // an unterminated last line that is not valid UTF-8 (in script mode the divider lands on the same line)
+        ("ff-no-eol", b"abc\xff".to_vec()),
+        ("invalid-utf8-run-no-eol", (0x80u8..0xa8).collect()),
+        ("utf8-no-eol", "l1\n\u{65e5}\u{672c}".as_bytes().to_vec()),
     ]
 }
 
